@@ -50,7 +50,8 @@ PROBES = ["unset_below_non_default_ancestor", "set_on_sibling", "invalid_value_r
           "render_reveals_png", "animated_draw_reveals_method", "setting_on_abstract_ancestor",
           "iterator_rerender_reveals_method", "file_backed_iterm2_render",
           "style_subclass_with_mixin", "animated_iterm2_direct_render",
-          "subclass_redeclares_render_methods"]
+          "subclass_redeclares_render_methods", "method_changed_under_live_iterator",
+          "subclass_with_derived_metaclass"]
 COMPONENTS = {
     "real": ["BaseImage.set_render_method (class and instance forms)", "ImageMeta.forced_support",
              "ITerm2ImageMeta + ClassInstanceProperty / ClassProperty descriptors",
@@ -154,7 +155,12 @@ def run(ch, ctx, fault=None):
                 redeclared = {"lines", "whole"}
                 body["_render_methods"] = set(redeclared)
                 ctx.probe("subclass_redeclares_render_methods")
-            sub = type(parent.cls)(name, bases, body)
+            meta = type(parent.cls)
+            if ch.bool("derived_metaclass", 0.2):
+                # an application metaclass (a registry, say) derived from the style's own
+                meta = type("Registry%d" % len(nodes), (meta,), {})
+                ctx.probe("subclass_with_derived_metaclass")
+            sub = meta(name, bases, body)
             nodes.append(Node(sub, parent, parent.family, name))
             nodes[-1].methods = redeclared
         for n in nodes:
@@ -301,10 +307,21 @@ def run(ch, ctx, fault=None):
             eff = override.lower() if override else inst_effective(n, own, "method")
             spec = "1.1" + ("+" + override[0].upper() if override else "")
             frames = []
+            effs = [eff] * 4
+            other = "whole" if eff == "lines" else "lines"
+            flip = not override and other in n.accepted_methods() and ch.bool("flip_method", 0.5)
             try:
                 it = ti_image.ImageIterator(obj, 2, spec, True)
                 try:
-                    frames += [next(it), next(it)]          # first loop: rendered and cached
+                    frames += [next(it)]                    # first loop: rendered and cached
+                    if flip:
+                        # the effective method changes while the iterator is live: frames
+                        # rendered from now on use the new one
+                        obj.set_render_method(other)
+                        own["method"] = other
+                        effs[1:] = [other] * 3
+                        ctx.probe("method_changed_under_live_iterator")
+                    frames += [next(it)]
                     obj.set_size(width=2, height=2)
                     frames += [next(it), next(it)]          # second loop: stale, re-rendered
                 finally:
@@ -313,8 +330,9 @@ def run(ch, ctx, fault=None):
             except Exception as e:
                 raise Violation("render_raised", {"exc": repr(e), "class": n.name}, "iterate")
             ctx.probe("iterator_rerender_reveals_method")
-            want = 2 if eff == "lines" else 1
             for j, fr in enumerate(frames):
+                eff = effs[j]
+                want = 2 if eff == "lines" else 1
                 cmds = count_commands(fr, n.family)
                 check(cmds == want, "render_did_not_use_the_effective_method",
                       {"after": desc, "class": n.name, "effective": eff, "override": override,
